@@ -43,7 +43,10 @@ CheckValid(rec) ==
         m == Out(rec, "marshal")
         routes == {"marshal", "write", "write-plain", "encode"}
         bytesOf(r) == IF r = "encode" THEN StripNL(Out(rec, r)[3]) ELSE Out(rec, r)[3] IN
-    IF \E r \in routes : Out(rec, r)[2] /\ ~ValidOne(o, bytesOf(r)) THEN <<"C02", "invalid-json-with-nil-error">>
+    IF m[2] /\ ~ValidOne(o, m[3]) THEN <<"C02", "invalid-json-with-nil-error">>
+    \* Marshal's own bytes are fine but another route delivered something else that is not JSON:
+    \* a violation of validity and of route agreement at once
+    ELSE IF \E r \in routes : Out(rec, r)[2] /\ ~ValidOne(o, bytesOf(r)) THEN <<"C02+" \o RouteProp(rec), "invalid-json-with-nil-error">>
     ELSE IF \E r \in routes : Out(rec, r)[2] # m[2] THEN <<RouteProp(rec), "routes-disagree-on-success">>
     ELSE IF m[2] /\ \E r \in routes : Tree(o, bytesOf(r)) # Tree(o, m[3]) THEN <<RouteProp(rec), "routes-disagree-on-bytes">>
     ELSE IF m[2] /\ (Out(rec, "encode")[3] = <<>> \/ Out(rec, "encode")[3][Len(Out(rec, "encode")[3])] # 10) THEN <<"C07", "encoder-newline">>
